@@ -154,6 +154,20 @@ fn verif_side_c15() {
         check("BitXor_assign", format!("let x = {}; x ^= 0; x", ll), il as f64);
         check("BitOr_assign_element", format!("let a = [{}]; a[0] |= 0; a[0]", ll), il as f64);
     }
+    // operands of other types are converted to numbers first, then to 32-bit integers (expected values written out by hand)
+    for (expr, want) in [
+        ("true | 0", 1.0), ("null | 0", 0.0), ("undefined | 0", 0.0), ("'4294967301' | 0", 5.0), ("'0x100000001' | 0", 1.0),
+        ("'abc' | 0", 0.0), ("'' | 0", 0.0), ("' 12 ' | 0", 12.0), ("~'4294967295'", 0.0), ("~true", -2.0), ("~null", -1.0),
+        ("'3000000000' >> 0", -1294967296.0), ("'3000000000' >>> 0", 3000000000.0), ("1 << '33'", 2.0), ("1 << true", 2.0),
+        ("'-1' >>> '28'", 15.0), ("true & '3'", 1.0), ("null ^ '4294967297'", 1.0), ("NaN | 0", 0.0), ("Infinity | 0", 0.0),
+        ("-Infinity >>> 0", 0.0), ("(-0) | 0", 0.0), ("4294967295.9 | 0", -1.0), ("-4294967295.9 | 0", 1.0), ("2147483647.5 | 0", 2147483647.0),
+        ("-2147483648.5 | 0", -2147483648.0), ("0.9999999999999999 | 0", 0.0), ("-0.9999999999999999 | 0", 0.0),
+        ("let a = [4294967301]; a[0] | 0", 5.0), ("let o = { p: 3000000000 }; o.p | 0", -1294967296.0),
+        ("`${4294967301 | 0}`.length", 1.0), ("let r = 0; switch (4294967301 | 0) { case 5: r = 1; break; default: r = 2; } r", 1.0),
+        ("let n = 0; for (let i = 4294967296 | 0; i < 3; i++) { n++; } n", 3.0),
+    ] {
+        check("converted_operands_and_contexts", expr.to_string(), want);
+    }
     // parseInt's radix argument is converted with ToInt32 as well
     for (radix, digits, val) in [(2f64, "10", 2f64), (36.0, "z", 35.0), (16.0, "ff", 255.0), (10.0, "42", 42.0)] {
         for wrap in [0f64, 4294967296.0, -4294967296.0, 8589934592.0, 4294967296.0 * 1048576.0] {
